@@ -32,6 +32,7 @@ type FuncContract struct {
 	Key       string // e.g. "(*framer).GetMessage", "firewallRule$2"
 	Pkg       string
 	Tags      []string
+	SafetyTags []string // tags of the implicit safety / lock obligations (default: Tags)
 	Requires  []*Clause
 	Ensures   []*Clause
 	AtRelease []*Clause
@@ -130,7 +131,7 @@ type ContractFile struct {
 }
 
 var clauseKeywords = map[string]bool{
-	"tags": true, "requires": true, "ensures": true, "atrelease": true, "modifies": true, "loop": true, "invariant": true,
+	"tags": true, "safetytags": true, "requires": true, "ensures": true, "atrelease": true, "modifies": true, "loop": true, "invariant": true,
 	"trusted": true, "pure": true, "safety": true, "nosafety": true, "inline": true, "acquires": true, "releases": true,
 	"site": true, "params": true, "hyp": true, "show": true, "vars": true, "smt": true, "protects": true, "inv": true, "guar": true,
 	"havoc": true, "loopmodifies": true, "assume": true, "trust": true, "use": true,
@@ -274,6 +275,8 @@ func parseContractFile(path, pkg string) (*ContractFile, error) {
 				switch it.kw {
 				case "tags":
 					curF.Tags = append(curF.Tags, strings.Fields(it.text)...)
+				case "safetytags":
+					curF.SafetyTags = append(curF.SafetyTags, strings.Fields(it.text)...)
 				case "requires", "ensures", "atrelease":
 					c, err := mkClause(it.kw, it.text, it.line)
 					if err != nil {
@@ -407,6 +410,7 @@ func parseContractFile(path, pkg string) (*ContractFile, error) {
 			}
 		}
 	}
+	assignDefaultLabels(cf)
 	return cf, nil
 }
 
